@@ -187,6 +187,7 @@ class _Analysis:
         self.assert_guards = 0
         self.weak_guards: List[str] = []
         self.kinds: Set[str] = set()
+        self.guard_nodes: List[ast.AST] = []
         self.returns_on_mismatch = False
 
     # -- recognisers -------------------------------------------------------------------------
@@ -253,9 +254,11 @@ class _Analysis:
             cov = self.covers(roots, elementwise=self._is_elementwise(atom))
             if cov == "ALL":
                 self.kinds.add("G")
+                self.guard_nodes.append(test)
                 facts = facts | {"GUARDED"}
             elif cov == "ELEM":
                 self.kinds.add("G")
+                self.guard_nodes.append(test)
                 facts = facts | {"GUARDED-ELEM"}
         # mismatch side must raise a ValueError subclass
         if via == "if":
@@ -354,6 +357,7 @@ class _Analysis:
         if roots is None:
             return facts
         ob = self.ob
+        self.guard_nodes.append(c)
         if "*stream*" in roots:
             if ob.stream in roots:
                 self.kinds.add("D")
@@ -501,7 +505,8 @@ def rule_crsguard(prog: Program, modules: Optional[Set[str]] = None, must_guard:
             continue
         if fi.qual in guarding or (not bad and an.kinds and an.returns_on_mismatch and not (must_guard and fi.qual in must_guard)):
             kind = "+".join(sorted(an.kinds))
-            out.append(Instance("R-CRSGUARD", cid, OK, f"{kind}: every normal exit is behind a CRS-equality path condition or a guarding callee ({opsdesc})", where))
+            gw = fi.where(an.guard_nodes[0]) if an.guard_nodes else where
+            out.append(Instance("R-CRSGUARD", cid, OK, f"{kind}: every normal exit is behind a CRS-equality path condition or a guarding callee ({opsdesc})", gw))
             continue
         required = must_guard is not None and fi.qual in must_guard
         cg = None if required else caller_guarded(fi)
